@@ -440,6 +440,59 @@ c03h!(c03_unsubscribe_pattern_spares_longer_key, {
     kani::cover!(true);
     core::mem::forget(wb);
 });
+// @h props=C03,C17 tier=quick cap=1200 desc="subscribe(a) by c1 and subscribe(a/b) by c2 (no fork at or below a); the LONGER one is unsubscribed (last subscriber of its leaf), then set a: the shorter subscription still gets exactly its event, and can be unsubscribed afterwards" bounds="2 subscriptions; values Bool"
+c03h!(c03_unsubscribe_longer_spares_shorter_key, {
+    let mut wb = wb_with(n0(None), 0);
+    let r1 = aw!(wb.subscribe(cid(1), 1, s("a"), false, true));
+    let r2 = aw!(wb.subscribe(cid(2), 2, s("a/b"), false, true));
+    let (mut rx1, mut rx2) = match (r1, r2) {
+        (Ok(a), Ok(b)) => (a.0, b.0),
+        _ => {
+            assert!(false, "C03: both subscriptions accepted");
+            return;
+        }
+    };
+    let u = aw!(wb.unsubscribe(cid(2), 2));
+    assert!(u.is_ok(), "C03: unsubscribe accepted");
+    core::mem::forget(u);
+    let nb: bool = kani::any();
+    let w = aw!(wb.set(s("a"), Value::Bool(nb), cid(3), false));
+    assert!(w.is_ok(), "C03: set accepted");
+    core::mem::forget(w);
+    assert!(next_state(&mut rx1) == (VALUE, Some(nb)), "C03: a subscription that was never unsubscribed keeps receiving its events when a subscription on a LONGER key / pattern below it goes away");
+    assert!(next_state(&mut rx1).0 == NONE, "C03: ... exactly once");
+    assert!(next_state(&mut rx2).0 == NONE, "C03: the unsubscribed one gets nothing");
+    let u = aw!(wb.unsubscribe(cid(1), 1));
+    assert!(u.is_ok(), "C03: the remaining subscription is still known and can be unsubscribed");
+    core::mem::forget(u);
+    kani::cover!(true);
+    core::mem::forget(wb);
+});
+// @h props=C03,C17 tier=quick cap=1200 desc="psubscribe(a/?) by c1 and psubscribe(a/?/c) by the same client; the LONGER pattern is unsubscribed, then set a/b: the shorter pattern subscription still gets exactly its event" bounds="2 subscriptions of one client; values Bool"
+c03h!(c03_unsubscribe_longer_spares_shorter_pattern, {
+    let mut wb = wb_with(n0(None), 0);
+    let r1 = aw!(wb.psubscribe(cid(1), 1, s("a/?"), false, true));
+    let r2 = aw!(wb.psubscribe(cid(1), 2, s("a/?/c"), false, true));
+    let (mut rx1, mut rx2) = match (r1, r2) {
+        (Ok(a), Ok(b)) => (a.0, b.0),
+        _ => {
+            assert!(false, "C03: both subscriptions accepted");
+            return;
+        }
+    };
+    let u = aw!(wb.unsubscribe(cid(1), 2));
+    assert!(u.is_ok(), "C03: unsubscribe accepted");
+    core::mem::forget(u);
+    let nb: bool = kani::any();
+    let w = aw!(wb.set(s("a/b"), Value::Bool(nb), cid(3), false));
+    assert!(w.is_ok(), "C03: set accepted");
+    core::mem::forget(w);
+    assert!(next_pstate(&mut rx1, "a/b") == (VALUE, 1, true, Some(nb)), "C03: a subscription that was never unsubscribed keeps receiving its events when a subscription on a LONGER key / pattern below it goes away");
+    assert!(next_pstate(&mut rx1, "").0 == NONE, "C03: ... exactly once");
+    assert!(next_pstate(&mut rx2, "").0 == NONE, "C03: the unsubscribed one gets nothing");
+    kani::cover!(true);
+    core::mem::forget(wb);
+});
 /// a unique subscription (key or pattern) next to a non-unique key subscription on `a` holding `eb`;
 /// one value-preserving and one value-changing set. Whether an event is sent depends on "value changed":
 /// `eb` is concrete per branch (split in the harness), see c03_sub_plain_unique_snapshot.
